@@ -867,9 +867,12 @@ class C06(PropertyCheck):
         return {"kind": "load", "setup": setup, "N": N, "mode": rng.choice(MODES), "params": params, "gates": gs}
 
     def oracle_search(self, ctx, budget_s):
-        """failing inputs of the whole property (nothing excluded)"""
+        """failing inputs of the property; the classes that fail on the unchanged tree as recorded known findings (and are
+        excluded by the theorems' hypotheses) cannot explain a new break and are skipped"""
         t0 = time.time()
         for w in self._systematic():
+            if self._excluded(w):
+                continue
             f, d = check_property(w)
             if f:
                 yield w, d
@@ -877,6 +880,8 @@ class C06(PropertyCheck):
                 return
         while time.time() - t0 < budget_s:
             w = self._rand_witness(ctx.rng)
+            if not w["gates"] or self._excluded(w):
+                continue
             f, d = check_property(w)
             if f:
                 yield w, d
